@@ -59,7 +59,7 @@ func run(cfg *hx.RunCfg) (*hx.Result, error) {
 		for i := 0; i < cfg.N; i++ {
 			c := btx.Cfg{L: hx.Pick(r, []int{2, 2, 4, 6}), Unique: r.Bool(), LB: os.Getenv("C17_HUNT") == "lb"}
 			p := btx.GenProfile(r, c.L, false)
-			p.Len = 130
+			p.Len = 110
 			sr, _ := btx.Run(c, btx.Generator(r, p))
 			if sr.Dev != nil {
 				seen[sr.Dev.Class]++
@@ -77,7 +77,7 @@ func run(cfg *hx.RunCfg) (*hx.Result, error) {
 	}
 	n := cfg.N
 	if n == 0 {
-		n = 130
+		n = 110
 		if cfg.Tier == "thorough" {
 			n = 6000
 		}
